@@ -611,9 +611,11 @@ def run(ctx):
     ctx.rule = ("(a) every composition of the frame length as an accept pattern for frames of 6..10 bytes, sampled patterns for 125..100000 "
                 "bytes; (b) 2 threads x every schedule of length 9 (11), 3 threads x every schedule of length 6 (8), random 2-4 threads with "
                 "random payloads/patterns/schedules, co-simulated with the Lean interleaving model; (c) 2-3 receiver threads, fragmented "
-                "messages with control frames, random schedules, the Lean receivers model driven by the observed lock-acquisition order; (d) one receiver answering 1-3 pings while 1-2 threads send under short writes, co-simulated with the Lean programs model (the receiver = a thread whose program is the pongs); (a') the short-write sends again on an object equipped with a dispatcher; (b') 2-4 threads each sending 0-3 frames (send_binary / ping / pong), 2 threads x every schedule of length 10 (12), co-simulated with the Lean programs model at yield-point granularity; the library's own locks are scheduled (none assigned by the harness). non-trivial = more than one piece / more than one context switch")
+                "messages with control frames, random schedules, the Lean receivers model driven by the observed lock-acquisition order; (d) one receiver answering 1-3 pings while 1-2 threads send under short writes, co-simulated with the Lean programs model (the receiver = a thread whose program is the pongs); (a'') the write loop over the transport glue: every list of up to 3 `_socket.send` worlds (short writes incl. 0 and over-long, would-block with the wait expiring or not, timeouts, SSL EOF, OS errors) x blocking/non-blocking, against Model.SendGlue.sendLoop; (a') the short-write sends again on an object equipped with a dispatcher; (b') 2-4 threads each sending 0-3 frames (send_binary / ping / pong), 2 threads x every schedule of length 10 (12), co-simulated with the Lean programs model at yield-point granularity; the library's own locks are scheduled (none assigned by the harness). non-trivial = more than one piece / more than one context switch")
     run_short_writes(ctx)
     run_eagain(ctx)
+    from props import c12_glue
+    c12_glue.run_sendloop(ctx)
     run_senders(ctx)
     run_programs(ctx)
     run_receivers(ctx)
